@@ -209,6 +209,23 @@ class SymSeq(SymBase):
             return self.get(SymInt(it + n))
         raise IndexError("list index out of range")
 
+    def __setitem__(self, i, v):
+        """list / array item assignment with a possibly symbolic index (IndexError outside the sequence, like CPython)"""
+        if self.kind == "tuple":
+            raise TypeError("'tuple' object does not support item assignment")
+        if isinstance(i, slice):
+            raise Unsupported("slice assignment on a symbolic-length sequence")
+        it = _int_term(i)
+        n = self.n
+        if SymBool(z3.And(it >= 0, it < n)).__bool__():
+            idx = it
+        elif SymBool(z3.And(it < 0, it >= -n)).__bool__():
+            idx = it + n
+        else:
+            raise IndexError("list assignment index out of range")
+        leaves = _flatten(self.elem, v)
+        self.arrs = [z3.Store(a, idx, l) for a, l in zip(self.arrs, leaves)]
+
     def __iter__(self):
         n = z3.simplify(self.n)
         if not z3.is_int_value(n):
